@@ -120,6 +120,9 @@ def run(chk, tier):
     for i in range(na):
         g = progen.ProgGen(((chk.seed + 13) % 1000003) * 100003 + i)
         g.feat |= {"assert", "fun"}
+        if i % 2:       # ... and programs that recover from several halts (error, failed assertion) in a row
+            g.feat |= {"try", "halt", "catchall"}
+            g.exns = g.exns or ["Ex0", "Ex1", "Ex2"]
         aprogs.append(g.program("as%d" % i))
     fam_lo = progcheck.Family(chk, aprogs, "assert-kept", workers=vlib.NCPU, timeout=1500)
     fam_hi = progcheck.Family(chk, aprogs, "assert-deleted", workers=vlib.NCPU, timeout=1500, delassert=True)
